@@ -517,13 +517,17 @@ def run_sweep(seed, opts=None, extra_share=0.12):
         for e, p in sh[:k]:
             args += [top_u(e), top_u(p)]
         r = vm.deploy(own, "energy-factory", args, new_addr=fact)
-        assert r.ok, (r, opts)
+        if not r.ok:
+            # a well-formed option set (strictly increasing epochs and percentages once sorted) handed over in a shuffled
+            # order must be accepted: reported by the caller as a failure, not a crash
+            return dict(seed=seed, opts=[list(x) for x in opts], news=[], rows=[], rejected=dict(step="init", msg=r.msg, order=sh[:k]))
         if sh[k:]:
             a2 = []
             for e, p in sh[k:]:
                 a2 += [top_u(e), top_u(p)]
             r = vm.call(own, fact, "addLockOptions", a2)
-            assert r.ok, (r, opts)
+            if not r.ok:
+                return dict(seed=seed, opts=[list(x) for x in opts], news=[], rows=[], rejected=dict(step="addLockOptions", msg=r.msg, order=sh))
         es = [e for e, _ in opts]
         news = sorted(set([0] + es + [e - rng.randint(1, 29) for e in rng.sample(es, min(2, len(es)))]))
         rows = []
